@@ -120,6 +120,21 @@ impl TilemapData {
         Some(&self.tiles[index])
     }
 
+    // All tiles must refer to a tile that exists in the tileset.
+    pub(crate) fn validate<P>(&self, tileset: &Tileset<P>) -> Result<()> {
+        for tile in self.tiles.iter() {
+            if tile.id() >= tileset.tile_count() {
+                return Err(AsepriteParseError::InvalidInput(format!(
+                    "Tilemap references tile {} but tileset {} only has {} tiles",
+                    tile.id(),
+                    tileset.id(),
+                    tileset.tile_count()
+                )));
+            }
+        }
+        Ok(())
+    }
+
     pub(crate) fn parse_chunk<R: Read>(mut reader: AseReader<R>) -> Result<Self> {
         let width = reader.word()?;
         let height = reader.word()?;
